@@ -3,6 +3,7 @@ package mon
 import (
 	"fmt"
 	"strings"
+	"sync"
 
 	stackage "github.com/JesseCoretta/go-stackage"
 	"verifharness/core"
@@ -348,9 +349,14 @@ func (r reentrantLockAll) String() string {
 	return fmt.Sprintf("re-entrant acquisition of stack lock #%x by the goroutine that holds it (certain deadlock)", r.id)
 }
 
-var lockWatchHeld = map[uintptr]int{}
+var (
+	lockWatchHeld = map[uintptr]int{}
+	lockWatchMu   sync.Mutex // (the watcher is meant for single-goroutine cases; this only keeps its own map safe)
+)
 
 func lockWatch(point string, id uintptr) {
+	lockWatchMu.Lock()
+	defer lockWatchMu.Unlock()
 	switch point {
 	case "lock.want":
 		if lockWatchHeld[id] > 0 {
